@@ -27,13 +27,19 @@ INVS = ["Consecutive", "Bounded", "OncePerPass", "NeverTwice", "NeverWholeInput"
 
 
 def scenarios(ctx, max_l, max_cs, max_groups):
-    consts = dict(MaxL=max_l, MaxCS=max_cs, Kinds='{"slice", "random", "parquet"}', MaxGroups=max_groups, Deviations="{}")
+    consts = dict(MinL=0, MaxL=max_l, MaxCS=max_cs, Kinds='{"slice", "random", "parquet"}', MaxGroups=max_groups, Deviations="{}")
     res = tlc.run("Reader", tlc.make_cfg(constants=consts, invariants=INVS, properties=["Termination"]), coverage=True)
     ctx.add_tlc(f"Reader ideal MaxL={max_l} MaxCS={max_cs} MaxGroups={max_groups}", res)
     ctx.require(res.ok, f"Reader ideal design violated: {res.error_kind} {res.error_name}")
     for act in ("StartPass", "ReadSlice", "LoadGroup", "Extract", "EndPass"):
         ctx.require(res.coverage.get(act, (0, 0))[1] > 0, f"Reader action {act} never taken")
     ideal = res.printed("done")
+    # long sources: the probe of the extra pass (patch_num mode) is SPARSE relative to the chunks (records / probe size > chunksize)
+    lc = dict(MinL=40, MaxL=41, MaxCS=3, Kinds='{"slice", "random"}', MaxGroups=1, Deviations="{}")
+    resl = tlc.run("Reader", tlc.make_cfg(constants=lc, invariants=INVS, properties=["Termination"]))
+    ctx.add_tlc("Reader ideal, long sources L=40..41 (sparse probe)", resl)
+    ctx.require(resl.ok, f"Reader ideal design violated on long sources: {resl.error_kind} {resl.error_name}")
+    ideal = list(ideal) + list(resl.printed("done"))
     # code as found: parquet requests whole row groups
     consts["Deviations"] = '{"RowGroupUnit"}'
     res2 = tlc.run("Reader", tlc.make_cfg(constants=consts, invariants=INVS), coverage=False)
